@@ -23,5 +23,12 @@ int main(int argc, char** argv)
 		printf("OK\n"); return 0;
 	}
 	if (cmd == "decode") { std::string t = unhex(argv[2]); Var v = Json::decode(t.c_str()); printf("OK %s\n", v.ok() ? "value" : "invalid"); return 0; }
+	if (cmd == "file") {              // file <hex of JSON text>: write the text to a file, Json::read it, compare with Json::decode of the text
+		std::string t = unhex(argv[2]); String path = "/tmp/vf_c05_replay.json";
+		{ FILE* f = fopen(*path, "wb"); fwrite(t.data(), 1, t.size(), f); fclose(f); }
+		Var fromFile = Json::read(path), fromText = Json::decode(t.c_str()); remove(*path);
+		if (!(fromFile == fromText) || fromFile.ok() != fromText.ok()) { printf("REPRODUCED Json::read of a %d-byte file differs from Json::decode of the same text\n", (int)t.size()); return 1; }
+		printf("OK %s\n", fromFile.ok() ? "value" : "invalid"); return 0;
+	}
 	return 2;
 }
